@@ -100,3 +100,9 @@ def nontrivial(case, result):
     w, n = int(toks[1]), int(toks[2])
     amt = int(toks[4][2:], 16)
     return amt % w != 0 or amt >= w * n
+
+
+def prebuild(root):
+    """translator: regenerate coq/Generated/Glue.v from the one-line projection functions of /repo/src (checked_shl .. the
+    inherent shl/shr; proved equal to the hand-written model in Proofs/GlueTie.v)"""
+    return run_translator(root, "rs2v_glue.py")
